@@ -24,10 +24,10 @@ func annotFor(kind string, cls int) model.AnnotationRenderer {
 	if cls > 0 {
 		col, fill = &color.Red, &color.Green
 	}
-	bw := pick(cls, 0, 1, 2.5)   // border width
-	rad := pick(cls, 0, 0, 3)    // border radius
-	m1 := pick(cls, 0, 10, 5)    // first margin
-	m := pick(cls, 0, 0, 6)      // other margins
+	bw := pick(cls, 0, 1, 2.5) // border width
+	rad := pick(cls, 0, 0, 3)  // border radius
+	m1 := pick(cls, 0, 10, 5)  // first margin
+	m := pick(cls, 0, 0, 6)    // other margins
 	cloudy := cls > 0
 	intensity := []int{0, 0, 2}[cls]
 	leO, leB := model.LEOpenArrow, model.LEButt
